@@ -60,10 +60,21 @@ class VSolver:
 # model classes
 
 def build_model(kind):
-    m = bench.build_bench("glpk")
+    m = bench.build_bench("glpk_exact" if kind == "exact" else "glpk")
     R = m.reactions
-    if kind == "bench":
+    if kind in ("bench", "exact"):
         pass
+    elif kind == "minimising":
+        # a model that minimises (several analyses set a direction of their own and must put this one back)
+        m.objective = "EX_A"
+        m.objective_direction = "min"
+    elif kind == "gene_flagged":
+        # non-initial gene states: g3 knocked out (no reaction goes with it), g1 flagged through the setter only
+        m.genes.g3.knock_out()
+        m.genes.g1.functional = False
+    elif kind == "tolerance":
+        m.tolerance = 1e-8
+        R.r1.bounds = (0.5, 10)
     elif kind == "cycle":
         from cobra import Reaction
 
@@ -107,7 +118,8 @@ def build_model(kind):
     return m
 
 
-MODEL_KINDS = ["bench", "cycle", "infeasible", "unbounded", "zero_optimum", "empty_objective", "two_substrates", "gap"]
+MODEL_KINDS = ["bench", "cycle", "infeasible", "unbounded", "zero_optimum", "empty_objective", "two_substrates", "gap",
+               "minimising", "gene_flagged", "tolerance", "exact"]
 
 
 def analyses():
@@ -421,7 +433,7 @@ def explore(ctx):
         "traces_validated_against_impl": stats.get("runs", 0) + stats.get("fault_runs", 0),
         "evaluations": stats.get("runs", 0) + stats.get("fault_runs", 0), "distinct_nontrivial": stats.get("fault_runs", 0),
         "rule": "%d analyses x %d model classes (feasible bench, internal cycle, infeasible, unbounded, zero optimum, empty "
-                "objective, two alternative substrates) x {outside, inside a user context after one edit}: fault-free run, repeat run, and every single "
+                "objective, two alternative substrates, gap, minimising, genes flagged non-functional, non-default tolerance, glpk_exact) x {outside, inside a user context after one edit}: fault-free run, repeat run, and every single "
                 "injected solver failure at solve k <= %s (+ last) x {raise SolverError, report infeasible, report undefined}%s; "
                 "ordered snapshot (content, raw LP, solver configuration) before == after; non-trivial = runs with an injected "
                 "fault" % (len(names), len(MODEL_KINDS), 20 if ctx.tier == "quick" else 60,
